@@ -5,7 +5,7 @@
 (* index designates a line that starts at or before the token), the bulk   *)
 (* view of a token equals what the accessors return.  Checked by tlapm     *)
 (* (SMT back end); MC_Views.tla checks the same by enumeration for small   *)
-(* buffers and, in addition, that both equal the text-derived reference.   *)
+(* buffers.  ViewsMatchTextThm below relates both to the reference.        *)
 (***************************************************************************)
 EXTENDS Buffer, TLAPS
 
@@ -39,4 +39,99 @@ THEOREM ViewsAgreeThm ==
     BY <1>2, <2>1, <2>2 DEF Bulk, Acc, AccEndCol, AccStartLine, AccStartCol
 <1> QED
   BY <1>1, <1>2
+
+(***************************************************************************)
+(* Second theorem: the accessors equal the text-derived reference of       *)
+(* DESIGN.md 7.1 (line of a position = the last line starting at or before *)
+(* it; a token ends on the line of its last character) for every buffer    *)
+(* whose line starts are strictly increasing and whose tokens carry the    *)
+(* index of the line they start on.                                        *)
+(***************************************************************************)
+\* the line (1-based) of position p is l
+IsLineOf(B, p, l) == /\ l \in 1..Len(B.lines) /\ B.lines[l] <= p
+                     /\ (l = Len(B.lines) \/ B.lines[l+1] > p)
+BufOK2(B) ==
+  /\ B.toks \in Seq(TokRec)
+  /\ B.lines \in Seq(Int)
+  /\ Len(B.lines) >= 1
+  /\ \A a, b \in 1..Len(B.lines) : a < b => B.lines[a] < B.lines[b]
+  /\ \A j \in 1..Len(B.toks) : IsLineOf(B, B.toks[j].c, B.toks[j].line + 1)
+  /\ \A j \in 1..(Len(B.toks) - 1) : B.toks[j].c <= B.toks[j+1].c
+
+LEMMA LineUnique ==
+  ASSUME NEW B, BufOK2(B), NEW p \in Int, NEW l \in 1..Len(B.lines), IsLineOf(B, p, l)
+  PROVE  LineOfPos(B, p) = l
+<1>0. Len(B.lines) \in Nat /\ l \in Int  BY DEF BufOK2
+<1>1. \A k \in 1..Len(B.lines) : IsLineOf(B, p, k) => k = l
+  <2> SUFFICES ASSUME NEW k \in 1..Len(B.lines), IsLineOf(B, p, k), k # l PROVE FALSE
+    OBVIOUS
+  <2>1. CASE k < l
+    <3>1. k + 1 \in 1..Len(B.lines) /\ k + 1 <= l  BY <2>1, <1>0
+    <3>2. B.lines[k+1] <= B.lines[l]  BY <3>1 DEF BufOK2
+    <3> QED BY <2>1, <3>1, <3>2 DEF IsLineOf, BufOK2
+  <2>2. CASE l < k
+    <3>1. l + 1 \in 1..Len(B.lines) /\ l + 1 <= k  BY <2>2, <1>0
+    <3>2. B.lines[l+1] <= B.lines[k]  BY <3>1 DEF BufOK2
+    <3> QED BY <2>2, <3>1, <3>2 DEF IsLineOf, BufOK2
+  <2> QED BY <2>1, <2>2
+<1>2. \E k \in 1..Len(B.lines) : IsLineOf(B, p, k)  OBVIOUS
+<1> QED BY <1>1, <1>2 DEF LineOfPos, IsLineOf
+
+THEOREM ViewsMatchTextThm ==
+  ASSUME NEW B, BufOK2(B), NEW i \in 1..NTok(B)
+  PROVE  Acc(B, i) = Ref(B, i)
+<1> DEFINE s == Start(B, i)
+           e == End(B, i)
+           n == Len(B.lines)
+<1>0. /\ n \in Nat /\ n >= 1 /\ Len(B.toks) \in Nat /\ i \in 1..Len(B.toks)
+      /\ B.toks[i] \in TokRec /\ s \in Int /\ B.toks[i].line \in Nat
+      /\ IsLineOf(B, s, B.toks[i].line + 1)
+  BY DEF BufOK2, NTok, Start, TokRec
+<1>1. LineOfPos(B, s) = B.toks[i].line + 1
+  BY <1>0, LineUnique DEF IsLineOf
+<1>2. CASE i = NTok(B)
+  <2>1. e = s  BY <1>2 DEF End, Start, NTok
+  <2> QED BY <1>0, <1>1, <1>2, <2>1 DEF Acc, Ref, AccStartLine, AccStartCol, AccEndLine, AccEndCol, Start, End, NTok
+<1>3. CASE i < NTok(B)
+  <2> DEFINE nx == B.toks[i+1]
+  <2>0. /\ i + 1 \in 1..Len(B.toks) /\ i \in 1..(Len(B.toks) - 1)
+        /\ nx \in TokRec /\ nx.c \in Int /\ nx.line \in Nat
+        /\ e = nx.c /\ s <= e
+        /\ IsLineOf(B, nx.c, nx.line + 1)
+    BY <1>0, <1>3 DEF BufOK2, NTok, Start, End, TokRec
+  <2>1. CASE s = e
+    <3>1. LineOfPos(B, s) = nx.line + 1
+      BY <1>0, <2>0, <2>1, LineUnique DEF IsLineOf
+    <3>2. nx.line = B.toks[i].line  BY <1>1, <3>1, <1>0, <2>0
+    <3>3. AccEndLine(B, i) = nx.line + 1  BY <1>3, <2>0, <2>1 DEF AccEndLine, Start, End, NTok
+    <3> QED BY <1>0, <1>1, <1>3, <2>0, <2>1, <3>1, <3>2, <3>3 DEF Acc, Ref, AccStartLine, AccStartCol, AccEndCol
+  <2>2. CASE s < e /\ nx.c > B.lines[nx.line + 1]
+    <3>1. IsLineOf(B, e - 1, nx.line + 1)
+      BY <1>0, <2>0, <2>2 DEF IsLineOf, BufOK2
+    <3>2. LineOfPos(B, e - 1) = nx.line + 1
+      BY <1>0, <2>0, <3>1, LineUnique DEF IsLineOf
+    <3>3. AccEndLine(B, i) = nx.line + 1  BY <1>3, <2>0, <2>2 DEF AccEndLine, Start, End, NTok
+    <3> QED BY <1>0, <1>1, <1>3, <2>0, <2>2, <3>2, <3>3 DEF Acc, Ref, AccStartLine, AccStartCol, AccEndCol
+  <2>3. CASE s < e /\ ~(nx.c > B.lines[nx.line + 1])
+    <3>0. nx.line + 1 \in 1..n /\ B.lines[nx.line + 1] <= nx.c /\ B.lines[nx.line + 1] \in Int
+      BY <1>0, <2>0 DEF IsLineOf, BufOK2
+    <3>1. nx.c = B.lines[nx.line + 1]  BY <2>0, <2>3, <3>0
+    <3>2. B.toks[i].line + 1 \in 1..n /\ B.lines[B.toks[i].line + 1] <= s /\ B.lines[B.toks[i].line + 1] \in Int
+      BY <1>0 DEF IsLineOf, BufOK2
+    <3>3. B.toks[i].line + 1 < nx.line + 1
+      <4>1. B.lines[B.toks[i].line + 1] < B.lines[nx.line + 1]  BY <1>0, <2>0, <2>3, <3>1, <3>2, <3>0
+      <4>2. ~(nx.line + 1 < B.toks[i].line + 1)  BY <4>1, <3>0, <3>2 DEF BufOK2
+      <4>3. nx.line + 1 # B.toks[i].line + 1  BY <4>1
+      <4> QED BY <4>2, <4>3, <1>0, <2>0
+    <3>4. nx.line \in 1..n /\ nx.line < nx.line + 1  BY <3>3, <3>0, <1>0, <2>0
+    <3>5. B.lines[nx.line] < B.lines[nx.line + 1] /\ B.lines[nx.line] \in Int
+      BY <3>4, <3>0 DEF BufOK2
+    <3>6. IsLineOf(B, e - 1, nx.line)
+      BY <1>0, <2>0, <3>1, <3>4, <3>5 DEF IsLineOf
+    <3>7. LineOfPos(B, e - 1) = nx.line
+      BY <1>0, <2>0, <3>4, <3>6, LineUnique DEF IsLineOf
+    <3>8. AccEndLine(B, i) = nx.line  BY <1>3, <2>0, <2>3 DEF AccEndLine, Start, End, NTok
+    <3> QED BY <1>0, <1>1, <1>3, <2>0, <2>3, <3>7, <3>8 DEF Acc, Ref, AccStartLine, AccStartCol, AccEndCol
+  <2> QED BY <2>0, <2>1, <2>2, <2>3
+<1> QED BY <1>0, <1>2, <1>3 DEF NTok
 =============================================================================
